@@ -67,6 +67,13 @@ ILLFORMED = {
     "system_rule_with_three_parts": (["@system sz", "    a:b:c", "@end"], None),
     "context_with_unparsable_line": (["@context cz", "    nonsense line", "@end"], None),
     "relation_with_unit_endpoint": (["@context cr", "    [d0] -> ua: value", "@end"], None),
+    # invalid names that used to be read as something else (round 6: the header regex was searched, not matched,
+    # and the symbol check looked at the name)
+    "symbol_with_space": (["w17 = 2 * ua = w s"], "w17"),
+    "prefix_symbol_with_space": (["zz- = 10 = z z-"], None),
+    "group_name_with_dash": (["@group my-group", "    w18 = 2 * ua", "@end"], None),
+    "group_using_glued_to_name": (["@group gq usingroot", "    w19 = 2 * ua", "@end"], None),
+    "system_name_with_dash": (["@system my-sys using root", "    ub", "@end"], None),
 }
 
 
